@@ -23,7 +23,8 @@ RULE = (
     "keys (depth 1-2, directories tracked as unloaded .dir entries), 1-5+ storage prefixes (root, tracked keys, "
     "their parents, untracked keys) that set cache and remote independently (role inherited from a shorter "
     "prefix, redundant re-statement, two prefixes sharing a remote, two remotes sharing a cache, a longer prefix "
-    "overriding the remote, one remote paired with two caches), 1-3 caches and 1-3 remotes of both local store classes, remote index on/off, "
+    "overriding the remote, one remote paired with two caches, prefixes strictly inside a tracked directory "
+    "that redirect the remote of a sub-directory or file, outer prefixes carrying only the cache), 1-3 caches and 1-3 remotes of both local store classes, remote index on/off, "
     "closed pre-existing remote contents, explicit collection index on/off, and a fault plan: object ids whose "
     "final placement into (a subset of) the remotes raises EIO in push round 1, optionally ids whose placement "
     "into the caches fails in a first fetch round. Flow: index.build -> md5 -> save, collect(push=True) + push "
@@ -45,9 +46,16 @@ RULE = (
 ASSUMPTIONS = [
     "uploads into a local store complete at os.replace/os.rename/os.link/os.symlink onto the object path "
     "(that is where faults are injected)",
-    "input domain of the flow: every tracked entry resolves to a cache and a remote; no storage prefix lies "
-    "strictly inside a tracked directory (its .dir object and its files would belong to different stores); the "
-    "tracked index has no data role",
+    "input domain of the flow: every tracked entry resolves to a cache; storage prefixes may lie strictly inside "
+    "a tracked (unloaded) directory, at a sub-directory or file of it, registered before or after the outer "
+    "prefixes, but the cache must not change inside a tracked directory (a directory object and the files it "
+    "lists are saved, transferred and checked for closure within one store); the tracked index has no data role",
+    "per-object designation: a plain file and a directory object belong to the stores their entry key resolves "
+    "to, a file listed by a directory to the stores its own full key resolves to. The remote of the directory "
+    "key necessarily also receives the files below an inner prefix (a directory object is only uploaded next "
+    "to all files it lists) - covered by the same bounds as a remote override between entries. When an entry "
+    "key resolves to no remote at all (only a prefix inside the directory has one) the directory object is "
+    "designated nowhere and cannot come back: such cases are judged on the push half only",
     "KNOWN FINDING collect-one-remote-two-caches: when the prefixes resolving to one remote store resolve to two "
     "or more caches, collect() groups them per remote store and carries along the first prefix's cache only. Such "
     "maps are generated (class shape:one-remote-two-caches); when the defect shows (the remote lacks, after the "
@@ -291,6 +299,22 @@ def flow_cases(draw):  # noqa: C901, PLR0912, PLR0915
         pkeys.append(other[draw(st.integers(0, len(other) - 1))])  # a prefix that governs no tracked entry
     if draw(st.booleans()):
         pkeys.append([])
+    # storage prefixes strictly inside a tracked directory (a sub-directory or a file of it): they may only
+    # redirect the remote - the cache has to stay the one of the directory
+    inner = []
+    tdirs = [k for k in tracked if isinstance(_get(ws, k), dict)]
+    if tdirs and draw(st.integers(0, 2)) == 0:
+        for _ in range(draw(st.sampled_from([1, 1, 2]))):
+            k = tdirs[draw(st.integers(0, len(tdirs) - 1))]
+            key, node = list(k), _get(ws, k)
+            while True:
+                names = sorted(node)
+                nm = names[draw(st.integers(0, len(names) - 1))]
+                key, node = [*key, nm], node[nm]
+                if not isinstance(node, dict) or draw(st.booleans()):
+                    break
+            if key not in inner:
+                inner.append(key)
     # no prefix strictly inside a tracked entry (cannot happen: candidates are tracked keys or shorter)
     nc = draw(st.sampled_from([1, 2, 2, 3]))
     nr = draw(st.sampled_from([1, 2, 2, 2, 3, 3]))
@@ -314,10 +338,27 @@ def flow_cases(draw):  # noqa: C901, PLR0912, PLR0915
             else:
                 p["cache"] = cache_of_remote[inh["remote"]]  # redundant re-statement of the inherited cache
         prefixes.append(p)
-    # complete: every tracked entry must resolve to a cache and a remote
+    # "the outer prefixes carry only the cache": a directory with a storage prefix inside it may go without a
+    # remote of its own (then only the part below that prefix has one)
+    bare = []
+    for k in tracked:
+        if any(is_prefix(k, i) for i in inner) and draw(st.integers(0, 2)) == 0:
+            bare.append(k)
+            for p in prefixes:
+                if is_prefix(p["key"], k) and p["cache"] is not None:
+                    p["remote"] = None
+    # complete: every tracked entry must resolve to a cache, and (unless bare) to a remote
     for k in tracked:
         res = resolve(prefixes, k)[1]
-        if res["cache"] is not None and res["remote"] is not None:
+        if res["cache"] is not None and (res["remote"] is not None or k in bare):
+            continue
+        if k in bare:
+            c = draw(st.integers(0, nc - 1))
+            own = [p for p in prefixes if p["key"] == k]
+            if own:
+                own[0]["cache"], own[0]["remote"] = c, None
+            else:
+                prefixes.append({"key": k, "cache": c, "remote": None})
             continue
         r = draw(st.integers(0, nr - 1)) if res["remote"] is None else res["remote"]
         own = [p for p in prefixes if p["key"] == k]
@@ -325,6 +366,12 @@ def flow_cases(draw):  # noqa: C901, PLR0912, PLR0915
             own[0]["remote"], own[0]["cache"] = r, cache_of_remote[r]
         else:
             prefixes.append({"key": k, "cache": cache_of_remote[r], "remote": r})
+    for key in sorted(inner, key=len):
+        inh = resolve(prefixes, key)[1]
+        fits = [i for i in range(nr) if cache_of_remote[i] == inh["cache"]]
+        r = draw(st.sampled_from(fits + fits + list(range(nr))))
+        # optionally re-state the (unchanged) cache next to the remote
+        prefixes.append({"key": key, "cache": inh["cache"] if draw(st.integers(0, 3)) == 0 else None, "remote": r})
     order = draw(st.permutations(list(range(len(prefixes)))))
     prefixes = [prefixes[i] for i in order]
 
@@ -505,19 +552,10 @@ def run_flow(case, ctx):  # noqa: C901, PLR0912, PLR0915
 
         def sets_for(keys):
             """Reference sets for the tracked keys `keys`: designated per remote / cache, and per storage prefix
-            (cache, remote, objects of the entries under it) - entries under a prefix move between the cache
-            and the remote that prefix resolves to."""
-            d_r, d_c, per_prefix = {}, {}, []
-            for k in keys:
-                d_r.setdefault(m.res[k]["remote"], set()).update(m.entries[k]["reach"])
-                d_c.setdefault(m.res[k]["cache"], set()).update(m.entries[k]["reach"])
-            for pk, c, r in pres:
-                objs = set()
-                for k in keys:
-                    if is_prefix(pk, k):
-                        objs |= m.entries[k]["reach"]
-                per_prefix.append((c, r, objs))
-            return d_r, d_c, per_prefix
+            (cache, remote, objects of the entries - or parts of a directory - under it): what lies under a
+            prefix moves between the cache and the remote that prefix resolves to."""
+            return (m.designated("remote", keys), m.designated("cache", keys),
+                    [(c, r, m.objs_under(pk, keys)) for pk, c, r in pres])
 
         _, _, pp_all = sets_for(m.tracked)
 
@@ -564,6 +602,8 @@ def run_flow(case, ctx):  # noqa: C901, PLR0912, PLR0915
             for ti, how in case["pre"]:
                 k = m.tracked[ti % len(m.tracked)]
                 e = m.entries[k]
+                if m.res[k]["remote"] is None:
+                    continue
                 root = roots[m.res[k]["remote"]]
                 files = sorted(e["listed"]) if e["isdir"] else [e["oid"]]
                 if how == "one":
@@ -610,8 +650,7 @@ def run_flow(case, ctx):  # noqa: C901, PLR0912, PLR0915
                         if lack[r] and any(not (lack[r] & set(csnap[c])) for c in caches_r[r])}
             if manifest:
                 r = min(manifest)
-                losers = sorted({m.res[k]["cache"] for k in m.tracked
-                                 if m.res[k]["remote"] == r and m.entries[k]["reach"] & lack[r]})
+                losers = sorted({c for oid, c, rr, _k in m.designation() if rr == r and oid in lack[r]})
                 known_shape(f"remote {r} is paired with caches {sorted(caches_r[r])} by the prefixes that resolve "
                             f"to it; collection carries one cache per remote store, so after a clean push the remote "
                             f"still lacks {sorted(lack[r])} - the objects of the entries whose cache is {losers} "
@@ -659,6 +698,11 @@ def run_flow(case, ctx):  # noqa: C901, PLR0912, PLR0915
         # Behind a manifest known finding the search goes on with the entries that no shaped remote requests
         # (the others cannot be fetched: their objects never reached the remote).
         active = [k for k in m.tracked if not (P["manifest"] and k in involved)]
+        # an entry whose own key resolves to no remote (only a prefix inside it does) cannot come back from the
+        # remotes: its directory object is designated nowhere - such cases are judged on the push half only
+        full_cycle = all(m.res[k]["remote"] is not None for k in m.tracked)
+        if not full_cycle:
+            active = []
         fetched1 = fetched2 = 0
         finj = None
         fetch_manifest = False
@@ -824,11 +868,24 @@ def run_flow(case, ctx):  # noqa: C901, PLR0912, PLR0915
         for k in m.tracked:
             src = {}
             for role in ("cache", "remote"):
-                best = max((tuple(p["key"]) for p in case["prefixes"]
-                            if is_prefix(p["key"], k) and p[role] is not None), key=len)
-                src[role] = best
+                src[role] = max((tuple(p["key"]) for p in case["prefixes"]
+                                 if is_prefix(p["key"], k) and p[role] is not None), key=len, default=None)
             if src["cache"] != src["remote"]:
                 fallback = True
+        inner = [tuple(p["key"]) for p in case["prefixes"]
+                 if any(len(p["key"]) > len(k) and is_prefix(k, p["key"]) for k in m.tracked)]
+        if inner:
+            cl.append("prefix-inside-tracked-dir")
+            order = [tuple(p["key"]) for p in case["prefixes"]]
+            if case["wiring"] == "add":
+                order = sorted(order, key=len)  # registration order of the parents-first wiring
+            if any(
+                    not any(is_prefix(o, i) and len(o) < len(i)
+                            and resolve(case["prefixes"], o)[1]["remote"] is not None
+                            for o in order[: order.index(i)]) for i in inner):
+                cl.append("inner-prefix-collected-before-any-outer")
+        if not full_cycle:
+            cl.append("entry-key-without-remote(push-only)")
         if fallback:
             cl.append("roles-from-different-prefixes")
         has_dir = any(e["isdir"] for e in m.entries.values())
